@@ -43,6 +43,11 @@ declare_ghost("g_reslen", A_II)
 declare_ghost("st", z3.ArraySort(Int, A_II))  # st[td][t]: 0 untouched, 1 rejected, 2 executed, 3 raised
 declare_ghost("ac", z3.ArraySort(Int, A_II))  # ac[td][t]: how many times _activate(td, t) was entered
 declare_ghost("depth", Int)
+declare_ghost("ncb", Int)  # callback-level log cursor: one record per CallbackWrapper invocation
+declare_ghost("cb_who", A_II)  # which wrapper
+declare_ghost("cb_ms", A_II)  # model state value when it was invoked
+declare_ghost("cb_ks", A_II)  # kwargs['state'] when it was invoked
+CB_LOG = ["ghost.ncb", "ghost.cb_who", "ghost.cb_ms", "ghost.cb_ks"]
 
 GK_CALL, GK_ALL = 1, 2
 
@@ -125,7 +130,7 @@ ClassModel("Model", fields={"state": "Val"})
 
 ClassModel(
     "CallbacksRegistry",
-    fields={"_registry": "dict[str,CallbacksExecutor]", "has_async_callbacks": "bool"},
+    fields={"_registry": "ddict[str,CallbacksExecutor]", "has_async_callbacks": "bool"},
     methods={
         "call": C(CBQ + "CallbacksRegistry.call"),
         "all": C(CBQ + "CallbacksRegistry.all"),
@@ -352,9 +357,10 @@ def prefix_kept(a0, a1, upto, tag="k"):
 
 
 def others_kept(key, s0, s, ref):
-    """Array field `key` unchanged at every object other than `ref`."""
+    """Array field `key` unchanged at every pre-existing object other than `ref`."""
     o = z3.Const("o!ok", Int)
-    return z3.ForAll([o], z3.Implies(o != ref, z3.Select(s[key], o) == z3.Select(s0[key], o)),
+    return z3.ForAll([o], z3.Implies(z3.And(o != ref, o < s0["ghost.alloc"]),
+                                     z3.Select(s[key], o) == z3.Select(s0[key], o)),
                      patterns=[z3.Select(s[key], o)])
 
 
@@ -390,6 +396,31 @@ def group_empty(s, key):
     return z3.Or(z3.Not(reg_has(s, key)), exec_len(s, reg_exec(s, key)) == 0)
 
 
+def wrapper_wf(s, w):
+    from pyvc.core import TRUE_OBJ, FALSE_OBJ
+    exp = s.sel("CallbackWrapper.expected_value", w)
+    return z3.And(z3.Or(exp == NONE, exp == TRUE_OBJ, exp == FALSE_OBJ),
+                  s.sel("CallbackWrapper._callback", w) >= FIRST_ADDR, s.sel("CallbackWrapper.condition", w) >= FIRST_ADDR)
+
+
+def exec_wf(s, ex):
+    dq = s.sel("CallbacksExecutor.items", ex)
+    arr, h, t = s.sel("deque.arr", dq), s.sel("deque.head", dq), s.sel("deque.tail", dq)
+    p = z3.Const("p!ew", Int)
+    return z3.And(dq != W.Q, dq >= FIRST_ADDR, dq < s["ghost.alloc"], t >= h,
+                  z3.ForAll([p], z3.Implies(z3.And(p >= h, p < t), z3.And(
+                      z3.Select(arr, p) >= FIRST_ADDR, z3.Select(arr, p) < s["ghost.alloc"],
+                      wrapper_wf(s, z3.Select(arr, p)))), patterns=[z3.Select(arr, p)]))
+
+
+def wf_registry(s):
+    """REG (DESIGN 3.3): every registered executor is a valid object holding valid wrappers."""
+    k = z3.Const("k!wr", Str)
+    e = reg_exec(s, k)
+    return z3.ForAll([k], z3.Implies(reg_has(s, k), z3.And(e >= FIRST_ADDR, e < s["ghost.alloc"], exec_wf(s, e))),
+                     patterns=[reg_has(s, k)])
+
+
 def dicts_kept(s0, s):
     o = z3.Const("o!dk", Int)
     return z3.ForAll([o], z3.Implies(z3.And(o >= 0, o < s0["ghost.alloc"], o != W.REGD), z3.And(
@@ -412,7 +443,7 @@ ENV_MODIFIES = [
     "deque.arr", "deque.tail", "deque.head", "Model.state",
     "ghost.ntrig", "ghost.trig_log", "ghost.trig_res",
     "ghost.ng", "ghost.g_key", "ghost.g_ms", "ghost.g_ks", "ghost.g_kind", "ghost.g_ok", "ghost.g_res",
-    "ghost.g_reslen", "ghost.st", "ghost.ac",
+    "ghost.g_reslen", "ghost.st", "ghost.ac", "ghost.ncb", "ghost.cb_who", "ghost.cb_ms", "ghost.cb_ks",
     "idict.has", "idict.val", "IState._state+", "IState._machine+",
     "list.arr+", "list.len+", "dict.has", "dict.val", "CallbacksExecutor.items+", "CallbacksExecutor.items_already_seen+",
     "TriggerData.machine+", "TriggerData.event+",
@@ -454,8 +485,10 @@ def env_effect(s0, s, glog_grows_by=None):
             prefix_kept(s0.g("trig_log"), s.g("trig_log"), s0.g("ntrig"), "tl"),
         )),
         "env:queued-items-valid": z3.Implies(queue_items_valid(s0), queue_items_valid(s)),
+        "env:registry-stays-wf": z3.Implies(wf_registry(s0), wf_registry(s)),
         "env:dicts-of-old-objects-kept": dicts_kept(s0, s),
         "env:registry-grows-only-by-empty-groups": registry_monotone(s0, s),
+        "env:cb-log-grows": s.g("ncb") >= s0.g("ncb"),
         "env:glog-prefix-kept": z3.And(
             s.g("ng") >= s0.g("ng"),
             prefix_kept(s0.g("g_key"), s.g("g_key"), s0.g("ng"), "gk"),
